@@ -554,6 +554,14 @@ def run(prog: Program, rep: Report, tier: str):
                     # (a loop over the 1-tuple written in place is unrolled by the evaluator: then the first loop seen is the inner one)
                     if (tup[0] and is_wrapped) or (not tup[0] and bare):
                         shape = False
+            # the same as a conditional expression: `state if isinstance(state, tuple) else (state,)`
+            for hp in hps:
+                for tm in hp.all_terms():
+                    for x in T.walk(tm):
+                        if x[0] == "ifexp" and T.is_call_to(x[1], "builtins.isinstance") and x[1][2][:1] == (st,) and T.contains(x[1][2][1], lambda y: y == ("ref", "builtins.tuple")):
+                            shape = x[2] == st and x[3] == wrapped
+                        if x[0] == "ifexp" and x[1][0] == "not" and T.is_call_to(x[1][1], "builtins.isinstance") and x[1][1][2][:1] == (st,) and T.contains(x[1][1][2][1], lambda y: y == ("ref", "builtins.tuple")):
+                            shape = x[3] == st and x[2] == wrapped
             rep.check(shape, "R19.4", hf.qualname, hf.loc, "the pickle hook tells the (dict, slots) pair from a bare instance dict", "the pickle hook assumes the state is always the (dict, slots) pair: when no slot holds a value (a frozen dataclass without fields, dict=True) the default state is the instance __dict__ itself, iterating it yields attribute *names* and copy / pickle raise AttributeError: 'str' object has no attribute 'items'", detail="hook-state-shape")
             # ... and where the empty halves are filtered out, the state is what is filtered (filter(function, iterable))
             swapped = [T.show(x)[:50] for hp in hps for tm in hp.all_terms() for x in T.walk(tm) if T.is_call_to(x, "builtins.filter") and len(x[2]) == 2 and T.contains(x[2][0], lambda y: y == st) and not T.contains(x[2][1], lambda y: y == st)]
